@@ -203,6 +203,8 @@ class Ctx:
                 f.write(json.dumps(ev, separators=(",", ":")) + "\n")
         if os.path.exists(vf):
             os.unlink(vf)
+        if os.environ.get("XCV_KEEP_TRACE"):          # debugging aid: keep a copy of the trace outside the scratch directory
+            shutil.copy(tr, os.path.join(os.environ["XCV_KEEP_TRACE"], "%s-%s.ndjson" % (self.prop, tag)))
         res = self.tlc(module, cfg, env={"XCV_TRACE": tr, "XCV_VERDICT": vf}, workers=1, timeout=timeout,
                        heap="8g" if os.path.getsize(tr) > 30_000_000 else "4g")
         if not os.path.exists(vf):
